@@ -134,8 +134,19 @@ class SerEnv:
         io = self.io
         io.begin_scope(armed)
         res = exc = None
+        import contextlib
+
+        ctx = contextlib.nullcontext()
+        if getattr(self, "warnings_as_errors", None):
+            # the interpreter's warning filters are part of the environment (python -W error,
+            # pytest filterwarnings=error): a courtesy warning must not derail a failing save
+            ctx = warnings.catch_warnings()
         try:
-            res = fn()
+            with ctx:
+                if getattr(self, "warnings_as_errors", None):
+                    for cat in self.warnings_as_errors:
+                        warnings.simplefilter("error", cat)
+                res = fn()
         except Exception as e:  # the property is about failing saves
             exc = e
         except (simstore.SimKeyboardInterrupt, simstore.SimSystemExit) as e:   # injected, never real
